@@ -426,7 +426,8 @@ func vfC17Oracle(in *vfGWInst, evFull string, pre, post *vfSnap) {
 			return
 		}
 		m.idwMsgs[x]++
-		ids := strings.Split(f[2], "+")
+		// (the length cap is per IDONTWANT message, i.e. per RPC, across all of its entries)
+		ids := strings.Split(strings.ReplaceAll(f[2], "|", "+"), "+")
 		for i, label := range ids {
 			cs := computeChecksum(g.msgID(label))
 			key := fmt.Sprintf("%x/%d", cs.payload[:8], cs.length)
@@ -603,7 +604,7 @@ func vfC17Scenarios(thorough bool) []*vfGWScenario {
 	mk("ihave-budget", []string{"ihave:a:t:m1", "ihave:a:t:m2", "ihave:a:t:m3", "ihave:a:t:m5", "ihave:a:t:m5+m6", "ihave:d:t:m6", "hb"})
 	out[len(out)-1].Cfg.Params = "d2ih"
 	out[len(out)-1].Depth = d + 1
-	mk("idontwant", []string{"idw:b:m1", "idw:b:m2", "idw:b:m1+m2+m3", "idw:a:m3", "pub:c:m1", "pub:c:s1", "pub:a:m2", "hb", "prune:b:t", "graft:a:t"})
+	mk("idontwant", []string{"idw:b:m1", "idw:b:m2", "idw:b:m1+m2+m3", "idw:b:m1|m2|m3", "idw:b:m5+m1|m6", "idw:a:m3", "pub:c:m1", "pub:c:s1", "pub:a:m2", "hb", "prune:b:t", "graft:a:t"})
 	mk("promises", []string{"ihave:a:t:m1", "ihave:d:t:m1", "ihave:a:t:m2+m3", "pub:b:m1", "pub:a:m2", "hb", "adv:2100", "adv:900"})
 	// the promised message arrives in time but sits in (gated) validation across the follow-up deadline
 	mk("promises-slow-validation", []string{"ihave:a:t:m1", "ihave:d:t:m1", "pub:a:m1", "pub:b:m1", "vrel:V:m1:A", "vrel:V:m1:I", "hb", "adv:2100", "adv:900"})
